@@ -505,6 +505,9 @@ func genC11(r *Runner) {
 	for i := 0; i < nMulti; i++ {
 		cases = append(cases, randomMultiCase(rng, "multi", c11Ocsp, c11Crl, 1+rng.Intn(3), 2))
 	}
+	// cancellation before / during / after: every source then fails, but the routing is the same — an inconclusive OCSP stage is
+	// followed by the CRL stage (a fetcher may well answer without the network), labelled as such
+	cases = append(cases, cancelCases(rng)...)
 	runChainCases(r, cases)
 }
 
